@@ -17,8 +17,9 @@ MODULE = "DfolsVerif.Properties.C01"
 BUILD_TARGETS = ["DfolsVerif.Driver.ClipDrv"]
 THEOREMS = ["Dfols.C01.C01_asAbs_in_bounds", "Dfols.C01.C01_removeScaling_in_bounds", "Dfols.C01.C01_eval_in_bounds",
             "Dfols.C01.C01_x0_clamp", "Dfols.C01.C01_no_new_nan", "Dfols.C01.callsites_ok",
-            "Dfols.C01.C01_old_overshoots", "Dfols.C01.C01_new_exact"]
+            "Dfols.C01.C01_old_overshoots", "Dfols.C01.C01_new_exact", "Dfols.C01.gen_clip_fns", "Dfols.C01.C01_gen_eval_in_bounds"]
 TRUSTED_EXTRA = [
+    "AST-to-Lean translator harness/gen_kernels.py (translate_clip): elementwise np.minimum/np.maximum/+/* expressions and the masked x0 assignments as ClipOps terms; the projection branch (dykstra) is C09's",
     "non-NaN doubles <-> Int order keys is an order embedding; + and x are arbitrary functions in the theorems (any rounding)",
     "provenance of objfun arguments is a syntactic inventory of call sites (AST translator harness/gen_callsites.py) plus observed traces; that the step itself is never NaN is numerics (search)",
     "with projections the last projector is the bound box (C09)",
@@ -28,6 +29,8 @@ ALLOW = ("bounds", "scaling", "proj", "avg", "soft", "hard", "npt", "growing", "
 
 def pre_build(ctx):
     gen_callsites.regenerate(ctx)
+    import gen_kernels
+    ctx.cov["translated_clip_functions"] = gen_kernels.regenerate_clip(ctx)
 
 
 def canon(bits_str):
